@@ -43,7 +43,7 @@ type c07Case struct {
 	// SWAShift: generations may overflow the context although the cache has a sliding window
 	// (sub-workload "sliding window + context shift", only for case indices < c07SWAShiftCases)
 	SWAShift bool      `json:"swa_shift_subworkload,omitempty"`
-	Mode     string    `json:"mode"` // sync: requests are admitted at scripted points between batches; free: clients race the batch loop
+	Mode     string    `json:"mode"` // sync: requests are (1 history in 13 opens with 'fork, then overflow': a prompt sharing more than num_keep + the discarded half of the previous one, generating beyond the context under the multi-user policy, so that the shift meets shared cells and the slot is rebuilt by reprocessing) admitted at scripted points between batches; free: clients race the batch loop
 	Reqs     []*c07Req `json:"requests"`
 	Ops      []c07Op   `json:"ops"`
 }
@@ -87,6 +87,19 @@ func c07Gen(r *kit.Rand, idx int) *c07Case {
 		cfg.Window = r.Range(2, 10)
 	}
 	cs.SWAShift = cfg.Window > 0 && idx < c07SWAShiftCases && idx%7 == 0
+	// directed opening "fork, then overflow": request 0 leaves a long prompt in a slot; request 1 shares more than
+	// num_keep + the discarded half of it and then diverges, so that under the multi-user policy the common prefix is
+	// forked to another slot (the cells stay shared), and generates beyond the context: the shift must touch shared
+	// cells, is refused, and the slot is rebuilt by reprocessing. On sliding-window kinds this belongs to the shift
+	// sub-workload.
+	forkOverflow := idx%13 == 5
+	if forkOverflow {
+		cfg.MultiUser = true
+		cfg.Parallel = max(cfg.Parallel, kit.Pick(r, []int{2, 3, 3, 4}))
+		if cfg.Window > 0 {
+			cs.SWAShift = true
+		}
+	}
 	letters := cfg.Vocab - 1
 	n := r.Range(3, 10)
 	if r.Chance(1, 7) {
@@ -161,6 +174,19 @@ func c07Gen(r *kit.Rand, idx int) *c07Case {
 		if r.Chance(3, 10) {
 			for j := r.Range(1, 2); j > 0; j-- {
 				q.Stop = append(q.Stop, c07RandText(r, letters, r.Range(1, 3)))
+			}
+		}
+		if forkOverflow && i < 2 {
+			nk := r.Range(1, 4)
+			need := nk + (cfg.NumCtx-nk)/2 + 1 // first index beyond num_keep + discard
+			if i == 0 {
+				q.Kind, q.Prompt = "fresh", c07RandText(r, letters, r.Range(max(need+1, 3*cfg.NumCtx/4), max(need+1, cfg.NumCtx-2)))
+				q.NumPredict, q.NumKeep, q.Stop = r.Range(1, 2), 0, nil
+			} else {
+				p0 := hist[0].prompt
+				m := r.Range(min(need, len(p0)-1), len(p0)-1)
+				q.Kind, q.Prompt = "diverge", p0[:m]+c07RandText(r, letters, r.Range(1, 3))
+				q.NumPredict, q.NumKeep, q.Stop = cfg.NumCtx+r.Range(1, 8), nk, nil
 			}
 		}
 		if r.Chance(1, 20) {
